@@ -1,7 +1,7 @@
 #!/bin/bash
 # usage: lib/try_mutant.sh <PROPERTY-ID> <patch.diff> [extra check args]
 # applies the patch to a scratch worktree of /repo, runs the check against it, prints the verdict
-ID=$1; PATCH=$2; shift 2
+ID=$1; PATCH=$(realpath "$2"); shift 2
 W=/root/scratch/mut-$$/repo
 mkdir -p /root/scratch/mut-$$
 git -C /repo worktree add -q --detach $W HEAD || exit 2
